@@ -903,6 +903,35 @@ Proof.
   destruct (crash_event_fs o k (run ck evs sys0)) as (_ & E2 & _). now rewrite E2.
 Qed.
 
+(** C16_call_atomic: a call interrupted by a crash at any point has happened entirely or not at all, relative
+    to the state [L0] the running machine showed (index, contents as seen by Lookup) when the call started:
+    the reopened machine reports and shows exactly [L0], or exactly what the call makes of [L0].  For Update
+    this is the atomicity of the call: all its entries, in their order, together with the new index - or
+    nothing; never a part of them, never one of them ahead of the index. *)
+Theorem call_atomic evs o k L0 :
+  open_state (run ck evs sys0) = Some L0 ->
+  exists L y', (L = L0 \/ L = fst (spec_op o (L0, true))) /\
+    do_event ck (EvOp OOpen) (run ck (evs ++ [EvCrash o k]) sys0) = (y', ROk (fst L)) /\
+    open_state y' = Some L.
+Proof.
+  intros Ho. destruct (run_spec evs) as [_ Hwf]. rewrite run_snoc.
+  set (y := run ck evs sys0) in *.
+  unfold open_state in Ho. destruct (p_db (s_proc y)) as [d|] eqn:Hd; [|discriminate Ho].
+  injection Ho as Ho.
+  destruct (wf_up_dur_state y d Hwf Hd) as (Hst & _).
+  pose proof (mid_state_ok y o k Hwf) as [Hdo Hor].
+  assert (Hup : up (s_proc y) = true) by (unfold up; now rewrite Hd).
+  unfold denote in Hor. rewrite Hup, Hst, Ho in Hor. cbn [fst] in Hor.
+  destruct (crash_event_fs o k y) as (E1 & E2 & E3).
+  assert (Hwf' : WF (fst (do_event ck (EvCrash o k) y))).
+  { destruct (fst (do_event ck (EvCrash o k) y)) as [s' p' f']. cbn in E1, E2, E3. subst s' p' f'.
+    apply crash_wf. exact Hdo. }
+  assert (Hdown : p_db (s_proc (fst (do_event ck (EvCrash o k) y))) = None) by now rewrite E2.
+  destruct (open_ok _ Hwf' Hdown) as (y' & Hev & Hop & _).
+  rewrite E1, dur_state_crash in Hev, Hop.
+  exists (dur_state ck (mid_state ck o k y)), y'. split; [exact Hor|]. split; [exact Hev|exact Hop].
+Qed.
+
 Theorem no_panic evs o : snd (do_event ck (EvOp o) (run ck evs sys0)) <> RPanic.
 Proof. destruct (run_spec evs) as [_ Hwf]. apply (event_step _ (EvOp o) Hwf). Qed.
 
